@@ -1203,7 +1203,9 @@ rrul_fill_mly(echs_instant_t *restrict tgt, size_t nti, rrulsp_t rr)
 		tmp = echs_shift_dvalue(rr->shift) +
 			echs_shift_bvalue(rr->shift) * 7 / 5;
 
-		if (tmp > 0) {
+		if (tmp > 0 ||
+		    !tmp && echs_shift_bday_p(rr->shift) &&
+		    !echs_shift_neg_p(rr->shift)) {
 			/* start early, dates shifted forward may reach us,
 			 * be generous, months can be as short as 28 days and
 			 * a weekend adds up to 2 days to a business day shift */
